@@ -990,8 +990,9 @@ class HelicityDecay(AmpDecay):
             all_data = kwargs.get("all_data", {})
             charge = all_data.get("charge_conjugation", None)
             if charge is not None:
+                # H is (n, n_ls, h1, h2): one more axis than in get_helicity_amp
                 H = tf.where(
-                    charge[..., None, None] > 0, H, H[..., ::-1, ::-1]
+                    charge[..., None, None, None] > 0, H, H[..., ::-1, ::-1]
                 )
         ret = tf.reshape(
             H,
